@@ -673,6 +673,16 @@ OBSERVERS = ['=COSH(800)', '=DEGREES(1E308)', '=ROUND(2.5,0)', '=ROUND(0.125,2)'
              '=ROUND(1E308*10-1E308*10,1)', '=M1+0', '=LEN(M1)']
 
 
+ENV_PAIRS = [
+    ('=LEN(FACT(2000))', '=M1+0'), ('=ROUND(FACT(2000),0)', '=LEN(M1)'),
+    ('=VDB(2400,300,10,5,6,2,TRUE)', '=VDB(2400,300,10,5,6,2,FALSE)'),
+    ('=VDB(2400,300,10,5,6,2,FALSE)', '=VDB(2400,300,10,5,6,2,TRUE)'),
+    ('=EXP(800)', '=COSH(800)'), ('=1E308*10', '=DEGREES(1E308)'),
+    ('=ROUND(1E308*10-1E308*10,2)', '=ROUND(2.5,0)'),
+    ('=SQRT(-1)', '=SQRT(2)'), ('=10^400', '=2^0.5'),
+]
+
+
 def add_env_cells(rng, world):
     """A few constant formulas on a sheet of their own: some that drive
     numeric code into its overflow / error paths, some whose value would
@@ -693,6 +703,18 @@ def add_env_cells(rng, world):
             k += 1
             world['cells'][a] = f
             world['deps'][a] = []
+            world['level'][a] = 1
+            world['order'].append(a)
+    if rng.random() < 0.3:
+        # a pair that belongs together: the first drives some process-wide
+        # switch or cache, the second shows it
+        for f in rng.choice(ENV_PAIRS):
+            if f in world['cells'].values():
+                continue
+            a = f'Env!A{k}'
+            k += 1
+            world['cells'][a] = f
+            world['deps'][a] = ['Env!M1'] if 'M1' in f else []
             world['level'][a] = 1
             world['order'].append(a)
     if rng.random() < 0.3:
